@@ -236,9 +236,53 @@ class Ctx:
                     out.append((m, mm.group(1), i))
         return out
 
+    def import_closure(self, modules: list[str]) -> set[str]:
+        """QuriVerif modules reachable from `modules` through `import` lines (source files that exist)"""
+        todo, seen = list(modules), set()
+        while todo:
+            m = todo.pop()
+            if m in seen:
+                continue
+            seen.add(m)
+            f = os.path.join(LEAN, m.replace(".", "/") + ".lean")
+            if not os.path.exists(f):
+                continue
+            for line in open(f):
+                mm = re.match(r"\s*import\s+(QuriVerif[\w.]*)", line)
+                if mm:
+                    todo.append(mm.group(1))
+        return seen
+
+    def regenerate_foreign(self, modules: list[str]) -> None:
+        """Generated/*.lean files of OTHER properties that this check's build imports (e.g. Driver.All imports the C01
+        tables) may be stale — left by an earlier run against another tree. Regenerate them from the current tree with
+        their owners' translators, so that this check never reports someone else's leftovers."""
+        import importlib
+
+        owners = sorted({m.split(".")[-1][:3] for m in self.import_closure(modules)
+                         if m.startswith("QuriVerif.Generated.") and re.match(r"C\d\d", m.split(".")[-1])})
+        done = []
+        for o in owners:
+            if o == self.pid:
+                continue
+            try:
+                mod = importlib.import_module(o.lower())
+            except Exception:  # noqa: BLE001
+                continue
+            if hasattr(mod, "gen"):
+                try:
+                    mod.gen(Ctx(o, "quick", self.seed))
+                    done.append(o)
+                except Exception as e:  # noqa: BLE001 – the owner's own check reports translation problems
+                    self.notes.append(f"could not regenerate Generated files of {o}: {type(e).__name__}: {e}"[:300])
+        if done:
+            self.extra["regenerated_foreign"] = done
+
     def prove(self, prop_modules: list[str], obligation_modules: list[str]) -> bool:
         """Build the property modules; record which obligations failed.
         obligation_modules: the modules whose `theorem`s count as obligations."""
+        with self.timed("regenerate_foreign"):
+            self.regenerate_foreign(prop_modules)
         with self.timed("lean_build"):
             obs = self.count_obligations(obligation_modules)
             self.obligations = [f"{m}.{n}" for m, n, _ in obs]
